@@ -139,6 +139,36 @@ pub fn gen_squares(out: &mut Out, rng: &mut Rng, thorough: bool) {
     }
 }
 
+/// matrices whose dark count sits exactly on / just below every 5 % step of the dark-ratio term (random positions)
+pub fn gen_ratio_steps(out: &mut Out, rng: &mut Rng, thorough: bool) {
+    for v in if thorough { vec![0usize, 1, 2, 4, 6, 9] } else { vec![0usize, 2] } {
+        let t = h::create_matrix(version_of(v));
+        let n = t.size;
+        let total = n * n;
+        for k in 1..20usize {
+            for below in 0..2usize {
+                let want = ((total * k * 5 + 99) / 100).saturating_sub(below);
+                // a random permutation prefix of `want` cells is dark
+                let mut idx: Vec<usize> = (0..total).collect();
+                for i in (1..total).rev() {
+                    idx.swap(i, rng.below(i + 1));
+                }
+                let mut dark = vec![false; total];
+                for &i in idx.iter().take(want.min(total - 1)) {
+                    dark[i] = true;
+                }
+                let mut s = String::with_capacity(total);
+                for r in 0..n {
+                    for c in 0..n {
+                        s.push(nib(dark[r * n + c], (t[r][c].0 >> 1) as usize));
+                    }
+                }
+                out.job(move || usq_line(v, &s));
+            }
+        }
+    }
+}
+
 pub fn gen_structure(out: &mut Out, rng: &mut Rng, thorough: bool) {
     for e in 0..4usize {
         for v in 0..40usize {
